@@ -41,7 +41,22 @@ func biga(t []string) (out string) {
 	old := runtime.GOMAXPROCS(procs)
 	defer runtime.GOMAXPROCS(old)
 	mk := func(backend, layout string, val func(i int) float64) (data.NDFloat64, []float64) {
-		rd, loc, st := fpsLayout(layout, r, c)
+		// layouts "3..." are THREE-dimensional views [r, 1, c] (one variable of a [cells, variables, timesteps] block,
+		// the shape the generated wrappers and ow-sim work with): a 1-wide axis in the middle of the shape
+		three := len(layout) > 1 && layout[0] == '3'
+		var rd, loc, st []int
+		if three {
+			switch layout[1:] {
+			case "full": rd, loc, st = []int{r, 1, c}, []int{0, 0, 0}, nil
+			case "gap": rd, loc, st = []int{r, 1, c + 2}, []int{0, 0, 1}, nil
+			case "step": rd, loc, st = []int{r, 1, 2 * c}, []int{0, 0, 0}, []int{1, 1, 2}
+			case "rows": rd, loc, st = []int{2 * r, 1, c}, []int{0, 0, 0}, []int{2, 1, 1}
+			case "var": rd, loc, st = []int{r, 3, c}, []int{0, 1, 0}, nil
+			default: panic("layout " + layout)
+			}
+		} else {
+			rd, loc, st = fpsLayout(layout, r, c)
+		}
 		buf := make([]float64, data.Product(rd))
 		for i := range buf { buf[i] = 99 }
 		// fill the view's cells directly in the buffer (independent of the library's index code)
@@ -49,13 +64,23 @@ func biga(t []string) (out string) {
 			for j := 0; j < c; j++ {
 				var off int
 				switch layout {
-				case "full": off = i*c + j
-				case "gap": off = i*(c+2) + 1 + j
-				case "step": off = i*2*c + 2*j
-				case "rows": off = 2*i*c + j
+				case "full", "3full": off = i*c + j
+				case "gap", "3gap": off = i*(c+2) + 1 + j
+				case "step", "3step": off = i*2*c + 2*j
+				case "rows", "3rows": off = 2*i*c + j
+				case "3var": off = i*3*c + c + j
 				}
 				buf[off] = val(i*c + j)
 			}
+		}
+		if three {
+			var root3 data.NDFloat64
+			if backend == "c" {
+				root3 = cdata.NewFloat64CArray(unsafe.Pointer(&buf[0]), rd)
+			} else {
+				root3 = data.ArrayFromSliceFloat64(buf, rd)
+			}
+			return root3.Slice(loc, []int{r, 1, c}, st), buf
 		}
 		var root data.NDFloat64
 		if backend == "c" {
@@ -72,7 +97,11 @@ func biga(t []string) (out string) {
 	case "COPYFROM":
 		dst.CopyFrom(src)
 	case "APPLYSLICE":
-		dst.ApplySlice([]int{0, 0}, nil, src)
+		if len(dl) > 1 && dl[0] == '3' {
+			dst.ApplySlice([]int{0, 0, 0}, nil, src)
+		} else {
+			dst.ApplySlice([]int{0, 0}, nil, src)
+		}
 	case "SCALE":
 		data.ScaleFloat64Array(dst, src, 3)
 	case "ADDTO":
